@@ -80,8 +80,9 @@ fn run<Rm: ModeTag, const B: Word>(m: &mut Mon, r: &mut Rng) {
     let (ia, ib) = (BigInt::from(sa.clone()) * if na { -1 } else { 1 }, BigInt::from(sb.clone()) * if nb { -1 } else { 1 });
     let (qa, qb) = (q_of_parts(&ia, ea, base), q_of_parts(&ib, eb, base));
     let (ra, rb) = (Repr::<B>::new(ibig_of_int(&ia), ea as isize), Repr::<B>::new(ibig_of_int(&ib), eb as isize));
-    let opn = r.below(16);
+    let opn = r.below(18);
     let opname = match opn {
+        16 | 17 => "near_half",
         0..=3 => "add",
         4..=6 => "sub",
         7 => "cancel",
@@ -226,6 +227,41 @@ fn run<Rm: ModeTag, const B: Word>(m: &mut Mon, r: &mut Rng) {
             let res = catch(|| ctx.cubic(&ra)).or_else(|p| fail("unexpected_panic", p))?;
             judge(&(&qa * &qa * &qa), &res, "cubic")
         }),
+        16 | 17 => {
+            // the discarded low part sits on / next to one half of the last kept digit: a (p digits) plus or minus a
+            // k-digit tail L * B^(ea-k) with L in {floor(B^k/2) - 1, floor(B^k/2), floor(B^k/2) + 1}. In an odd
+            // base floor(B^k/2) = 11..1 is the closest value below one half (there is no exact tie), in an even
+            // base it is the exact tie; k reaches past the point where the implementation's f32 pre-filter can decide
+            let kmax = if r.bool() { 12 } else { 40 };
+            let k = (1 + r.usize(kmax)).min(p);
+            let bk = Pow::pow(&BigUint::from(base), k);
+            let half = &bk / 2u32;
+            let l = match r.below(4) {
+                0 => &half - 1u32.min(half.bits() as u32),
+                1 | 2 => half.clone(),
+                _ => &half + 1u32,
+            };
+            if l.bits() == 0 {
+                return;
+            }
+            let a_full = BigInt::from(sig(r, base, p)) * if na { -1 } else { 1 };
+            if digits(&a_full, base) > p {
+                return;
+            }
+            let il = BigInt::from(l) * if nb { -1 } else { 1 };
+            let (ea2, el) = (ea, ea - k as i64);
+            let (ra2, rl) = (Repr::<B>::new(ibig_of_int(&a_full), ea2 as isize), Repr::<B>::new(ibig_of_int(&il), el as isize));
+            let (qa2, ql) = (q_of_parts(&a_full, ea2, base), q_of_parts(&il, el, base));
+            let d2 = || format!("near_half mode={} base={} p={} a={}*{}^{} tail={}*{}^{} (k={})", Rm::M.name(), base, p, a_full, base, ea2, il, base, el, k);
+            let swap = r.bool();
+            m.check("near_half", &format!("{}/b{}/{}/k{}", Rm::M.name(), base, pc, if k < 7 { "<7" } else { ">=7" }), Some(h ^ (k as u64) << 7 ^ 0x9e37), &d2, || {
+                let res = catch(|| if swap { ctx.add(&rl, &ra2) } else { ctx.add(&ra2, &rl) }).or_else(|p| fail("unexpected_panic", p))?;
+                judge(&(&qa2 + &ql), &res, "add(near half)")?;
+                let res = catch(|| ctx.sub(&ra2, &rl)).or_else(|p| fail("unexpected_panic", p))?;
+                judge(&(&qa2 - &ql), &res, "sub(near half)")?;
+                Ok(())
+            });
+        }
         _ => m.check("inv", &cell, Some(h), &desc, || {
             let res = catch(|| ctx.inv(&ra)).or_else(|p| fail("unexpected_panic", p))?;
             judge(&(BigRational::one() / &qa), &res, "inv")
